@@ -244,7 +244,7 @@ int fb_gen_common_c_builder_header(fb_output_t *out)
         "  for (i = 0; i < len; ++i) { N ## _copy_to_pe(N ## __ptr_add(p, i), N ## __const_ptr_add(data, i)); }\\\n"
         "  return flatcc_builder_end_vector(B); } else return flatcc_builder_create_vector(B, data, len, S, A, FLATBUFFERS_COUNT_MAX(S)); }\\\n"
         "static inline N ## _vec_ref_t N ## _vec_clone(NS ## builder_t *B, N ##_vec_t vec)\\\n"
-        "{ __%smemoize(B, vec, flatcc_builder_create_vector(B, vec, N ## _vec_len(vec), S, A, FLATBUFFERS_COUNT_MAX(S))); }\\\n"
+        "{ __%smemoize(B, flatcc_builder_refmap_vec_key(vec), flatcc_builder_create_vector(B, vec, N ## _vec_len(vec), S, A, FLATBUFFERS_COUNT_MAX(S))); }\\\n"
         "static inline N ## _vec_ref_t N ## _vec_slice(NS ## builder_t *B, N ##_vec_t vec, size_t index, size_t len)\\\n"
         "{ size_t n = N ## _vec_len(vec); if (index >= n) index = n; n -= index; if (len > n) len = n;\\\n"
         "  return flatcc_builder_create_vector(B, N ## __const_ptr_add(vec, index), len, S, A, FLATBUFFERS_COUNT_MAX(S)); }\\\n"
@@ -284,14 +284,15 @@ int fb_gen_common_c_builder_header(fb_output_t *out)
         "static inline N ## _union_vec_ref_t N ## _vec_clone(NS ## builder_t *B, N ##_union_vec_t vec)\\\n"
         "{ N ## _union_vec_ref_t _uvref, _ret = { 0, 0 }; NS ## union_ref_t _uref; size_t _i, _len;\\\n"
         "  if (vec.type == 0) return _ret;\\\n"
-        "  _uvref.type = flatcc_builder_refmap_find(B, vec.type); _uvref.value = flatcc_builder_refmap_find(B, vec.value);\\\n"
+        "  _uvref.type = flatcc_builder_refmap_find(B, flatcc_builder_refmap_vec_key(vec.type));\\\n"
+        "  _uvref.value = flatcc_builder_refmap_find(B, flatcc_builder_refmap_vec_key(vec.value));\\\n"
         "  _len = N ## _union_vec_len(vec); if (_uvref.type == 0) {\\\n"
-        "  _uvref.type = flatcc_builder_refmap_insert(B, vec.type, (flatcc_builder_create_type_vector(B, vec.type, _len))); }\\\n"
+        "  _uvref.type = flatcc_builder_refmap_insert(B, flatcc_builder_refmap_vec_key(vec.type), (flatcc_builder_create_type_vector(B, vec.type, _len))); }\\\n"
         "  if (_uvref.type == 0) return _ret; if (_uvref.value == 0) {\\\n"
         "  if (flatcc_builder_start_offset_vector(B)) return _ret;\\\n"
         "  for (_i = 0; _i < _len; ++_i) { _uref = N ## _clone(B, N ## _union_vec_at(vec, _i));\\\n"
         "    if ((!_uref.value && _uref.type) || !(flatcc_builder_offset_vector_push(B, _uref.value))) return _ret; }\\\n"
-        "  _uvref.value = flatcc_builder_refmap_insert(B, vec.value, flatcc_builder_end_offset_vector_for_unions(B, vec.type));\\\n"
+        "  _uvref.value = flatcc_builder_refmap_insert(B, flatcc_builder_refmap_vec_key(vec.value), flatcc_builder_end_offset_vector_for_unions(B, vec.type));\\\n"
         "  if (_uvref.value == 0) return _ret; } return _uvref; }\n"
         "\n",
         nsc, nsc);
@@ -356,11 +357,11 @@ int fb_gen_common_c_builder_header(fb_output_t *out)
         "{ return flatcc_builder_create_offset_vector(B, data, len); }\\\n"
         "__%sbuild_offset_vector_ops(NS, N ## _vec, N, N)\\\n"
         "static inline N ## _vec_ref_t N ## _vec_clone(NS ## builder_t *B, N ##_vec_t vec)\\\n"
-        "{ int _ret; N ## _ref_t _e; size_t _i, _len; __%smemoize_begin(B, vec);\\\n"
+        "{ int _ret; N ## _ref_t _e; size_t _i, _len; __%smemoize_begin(B, flatcc_builder_refmap_vec_key(vec));\\\n"
         " _len = N ## _vec_len(vec); if (flatcc_builder_start_offset_vector(B)) return 0;\\\n"
         "  for (_i = 0; _i < _len; ++_i) { if (!(_e = N ## _clone(B, N ## _vec_at(vec, _i)))) return 0;\\\n"
         "    if (!flatcc_builder_offset_vector_push(B, _e)) return 0; }\\\n"
-        "  __%smemoize_end(B, vec, flatcc_builder_end_offset_vector(B)); }\\\n"
+        "  __%smemoize_end(B, flatcc_builder_refmap_vec_key(vec), flatcc_builder_end_offset_vector(B)); }\\\n"
         "\n",
         nsc, nsc, nsc, nsc);
 
